@@ -63,7 +63,7 @@ Fixpoint rep (n : nat) (l : label) : list label :=
 
 Definition o00 := mkOpts false false.
 Definition timeout_witness : list label :=
-  [LSpawn OConnect] ++ rep 8 (LStep 0 true) ++
+  [LSpawn OConnect] ++ rep 9 (LStep 0 true) ++
   [LSpawn (OSubCli 0 o00); LStep 2 true] ++                (* A reserves generation 1, handler pending *)
   [LSpawn (OUnsubSrv 0); LStep 4 true; LStep 4 true] ++    (* U1 waits at A's gate *)
   [LTimeout 4] ++                                          (* 5 s: gate nil-ed, close spawned (not yet run) *)
